@@ -227,7 +227,7 @@ func init() {
 		HarnessSpec{Name: "VerifH_grpcweb", Covers: []string{"ok", "text", "binary", "http2", "trailers-only"}})
 	props["C05"].Outside = append(props["C05"].Outside, "WebSocket close frame (the block is inline behind ws.UpgradeHTTP, which needs a hijackable connection; by reading the close reason is never truncated to 123 bytes - D16)", "status details (proto.Marshal of the details is not encoded)", "json.Marshal of the Twirp error is modelled for messages that need no escaping")
 	ext("C14", "drivers: header and trailer metadata (symbolic 1..2 byte values) set by the handler through grpc.SetHeader / SetTrailer, forged grpc-status / grpc-message trailers, as seen by the client through the ResponseWriter model on gRPC and in the gRPC-web trailer frame / trailers-only headers",
-		HarnessSpec{Name: "VerifH_serveGRPC", Covers: []string{"ok", "failed"}},
+		HarnessSpec{Name: "VerifH_serveGRPC", Covers: []string{"ok", "failed", "metadata-set-twice"}},
 		HarnessSpec{Name: "VerifH_grpcweb", Covers: []string{"ok", "trailers-only", "same-key-header-and-trailer"}})
 	ext("C15", "driver: grpc-timeout header through serveGRPC: one digit x every unit (deadline seen by the handler) and every ASCII string of 1..3 bytes that decodeTimeout rejects (400, handler never invoked)",
 		HarnessSpec{Name: "VerifH_serveGRPC_timeout", Covers: []string{"malformed", "deadline", "zero-timeout", "sub-second", "with-stats"}})
